@@ -54,12 +54,14 @@ def _register_aliases(fnode):
 
 
 MUST_RECALC = set()  # names of group-collection methods every path of which recalculates (computed per run)
+HOOKS = {"_recalculate_extents"}  # name of the collection's recalculation hook (found per run: the no-op of the base collection
+#                                    that the group's collection overrides)
 
 
 def _is_recalc(n):
     if not (isinstance(n, ast.Call) and isinstance(n.func, ast.Attribute)):
         return False
-    if n.func.attr in ("_recalculate_extents", "recalculate_extents"):
+    if n.func.attr in HOOKS or n.func.attr == "recalculate_extents":
         return True
     return n.func.attr in MUST_RECALC and dotted(n.func.value) in ("self", "self._shapes", "super()")
 
@@ -205,11 +207,23 @@ def run(ctx):
     # resolved in the MRO of the concrete class whose hook is not a no-op
     MUST_RECALC.clear()
     gs0 = st.classes.get("GroupShapes")
+    HOOKS.clear()
+    HOOKS.add("_recalculate_extents")
+    if gs0 is not None and "_recalculate_extents" not in base.methods:
+        # the hook under another name: a private method the base collection defines as a no-op and the group's collection overrides
+        def _noop(f_):
+            return all(isinstance(x, ast.Pass) or (isinstance(x, ast.Expr) and isinstance(x.value, ast.Constant)) for x in f_.node.body)
+        cands = [nm_ for nm_, f_ in base.methods.items() if nm_.startswith("_") and _noop(f_) and nm_ in gs0.methods
+                 and len(f_.params) == 1]
+        if len(cands) == 1:
+            HOOKS.clear()
+            HOOKS.add(cands[0])
+    hook_name = sorted(HOOKS)[0]
     if gs0 is not None:
         for _ in range(3):
             for c in prog.mro(gs0):
                 for name, f in getattr(c, "methods", {}).items():
-                    if name in ("_recalculate_extents",) or name in MUST_RECALC:
+                    if name in HOOKS or name in MUST_RECALC:
                         continue
                     if prog.lookup(gs0, name) is f and always_recalcs(f.node):
                         MUST_RECALC.add(name)
@@ -252,7 +266,7 @@ def run(ctx):
 
     ctx.rule("R17.2", "recalculation hooks delegate to the element and recurse to the parent group")
     gs = st.classes.get("GroupShapes")
-    h = gs.methods.get("_recalculate_extents") if gs else None
+    h = gs.methods.get(hook_name) if gs else None
     if h is not None and any(isinstance(x, ast.Call) and isinstance(x.func, ast.Attribute) and x.func.attr == "recalculate_extents"
                              and dotted(x.func.value) == "self._grpSp" for x in ast.walk(h.node)):
         ctx.ok("R17.2", "GroupShapes._recalculate_extents", sample={"delegates": "self._grpSp.recalculate_extents()"})
